@@ -35,7 +35,7 @@ def main():
      "hooks": {
       "guard": "verif",
       "enable": "no source hooks: harness files (//go:build verif) are injected into the packages under test with the go command's -overlay mechanism, both for loading into the symbolic executor and for native replay (go test -tags verif -overlay ...)",
-      "baseline_off_cmd": "cd /repo && GOFLAGS=-mod=mod go test -vet=off -count=1 ./... && cd /repo/client && GOFLAGS=-mod=mod go test -vet=off -count=1 ./...",
+      "baseline_off_cmd": "for m in . ./client; do (cd /repo/$m && GOFLAGS=-mod=mod GOPROXY=off go test -json -vet=off -count=1 -timeout 25m ./...); done",
       "source_commits": [],
       "add_only": True
      },
